@@ -132,7 +132,7 @@ class Parameters:
                 base = self.timestamp
                 if self.delay.delay_until is not None and self.delay.delay_until > base:
                     base = self.delay.delay_until
-            defer_by_times = max((now - base) // self.delay.defer_by + 1, 1)
+            defer_by_times = (now - base) // self.delay.defer_by + 1
             time_offset = self.delay.defer_by * defer_by_times
             return base + time_offset
         if self.delay.cron is not None:
